@@ -5,13 +5,16 @@ import sys
 
 pid = sys.argv[1]
 round3 = len(sys.argv) > 2 and sys.argv[2] == 'callers'
+round4 = len(sys.argv) > 2 and sys.argv[2] == 'stateful'
 wt = '/tmp/wt-%s' % pid
 for line in open('/verif/properties.jsonl'):
     p = json.loads(line)
     if p['id'] == pid:
         break
 extra = (" At least one of the two changes must be made in a module OTHER than the files the property is anchored in: a caller, helper or sibling module through which the property is also observable (for instance command line tools under edxml/cli, event collections, the transcoder classes and their test harnesses, the miner's parsers, logging or utility modules), so that code paths beyond the central one are covered." if round3 else "")
-print(f"""You are working in a scratch git worktree of the pure-Python package edxml/sdk at {wt} (a detached checkout of the project's HEAD). Work ONLY inside {wt}. Do not read, list or modify /repo or /verif or any other /tmp/wt-* directory.
+if round4:
+    extra = (" At least one of the two changes must only manifest through state carried across operations or through two cooperating sites: a cache, memo, counter or flag that survives between calls, an object reused across documents, sessions or ontologies, an upgrade or mutation that happens between two uses, or a helper whose changed contract only matters to one distant caller. The other change should be triggered by an unusual but legal input (boundary values, rarely used options or constructor arguments, rarely combined features) on a code path that the obvious usage does not take.")
+print(f"""You are working in a scratch git worktree of the pure-Python package edxml/sdk at {wt} (a detached checkout of the project's HEAD). Work ONLY inside {wt}. Do not read, list or modify /repo or /verif or any other /tmp/wt-* directory. Never use `git stash` (the stash is shared between worktrees); to undo a change use `git apply -R` or `git checkout -- <file>`.
 
 Environment: no network. Python is /venv/bin/python (all dependencies installed). To run code against the worktree use `cd {wt} && PYTHONPATH={wt} /venv/bin/python ...` and check `edxml.__file__` points into {wt}. Test suite: `cd {wt} && /venv/bin/python -m pytest -q -p no:cacheprovider` (about 6 s). On the unchanged tree exactly 12 tests fail (listed in /tmp/baseline_failed.txt) and 1112 pass; those 12 are pre-existing and irrelevant.
 
